@@ -14,8 +14,8 @@ package main
 import (
 	"fmt"
 	"os"
-	"reflect"
 	"path/filepath"
+	"reflect"
 	"runtime"
 	"sort"
 	"strconv"
@@ -166,17 +166,19 @@ type anyQueue interface {
 }
 
 type csched struct {
-	mu        sync.Mutex
-	cond      *sync.Cond
-	threads   []*sthread
-	byGoid    map[int64]*sthread
-	schedGoid int64
-	aborted   bool
-	queues    []anyQueue
-	qindex    map[any]int
-	closed    map[any]bool
-	wgCount   int
-	adopting  bool
+	mu         sync.Mutex
+	cond       *sync.Cond
+	threads    []*sthread
+	byGoid     map[int64]*sthread
+	schedGoid  int64
+	aborted    bool
+	queues     []anyQueue
+	qindex     map[any]int
+	closed     map[any]bool
+	wgCount    int
+	adopting   bool
+	wgAtSpawn  []int // the wait-group count observed at each spawn point (hook kind 8)
+	stuckMutex bool  // a queue's mutex was found locked with every goroutine parked (left locked by a panic)
 }
 
 func curGoid() int64 {
@@ -194,6 +196,12 @@ func curGoid() int64 {
 func (s *csched) hook(kind int, queue any) {
 	goid := curGoid()
 	if goid == s.schedGoid {
+		if kind == 8 {
+			// the set-up is about to start a helper goroutine: the wait group must already count it
+			s.mu.Lock()
+			s.wgAtSpawn = append(s.wgAtSpawn, s.wgCount)
+			s.mu.Unlock()
+		}
 		return // the scheduler itself inspecting a queue, or the set-up calling Fork/Split/Join
 	}
 	if queue != nil && strings.Contains(fmt.Sprintf("%T", queue), "TokenLike") {
@@ -290,12 +298,41 @@ func (s *csched) quiescent(timeout time.Duration) bool {
 	}
 }
 
+// sizeOf reads len(available_) through GetSize, which takes the queue's mutex: if a call panicked inside a
+// critical section the mutex stays locked for ever, so the read is done with a time limit (-1 = blocked)
+func sizeOf(q anyQueue) int {
+	ch := make(chan int, 1)
+	go func() { ch <- q.GetSize() }()
+	select {
+	case n := <-ch:
+		return n
+	case <-time.After(2 * time.Second):
+		return -1
+	}
+}
+
 func (s *csched) enabledOf(t *sthread) bool {
 	switch t.kind {
 	case 2:
-		return s.closed[t.qobj] || t.qobj.GetSize() < int(t.qobj.GetCapacity())
+		if s.closed[t.qobj] {
+			return true
+		}
+		n := sizeOf(t.qobj)
+		if n < 0 {
+			s.stuckMutex = true
+			return false
+		}
+		return n < int(t.qobj.GetCapacity())
 	case 3:
-		return s.closed[t.qobj] || t.qobj.GetSize() > 0
+		if s.closed[t.qobj] {
+			return true
+		}
+		n := sizeOf(t.qobj)
+		if n < 0 {
+			s.stuckMutex = true
+			return false
+		}
+		return n > 0
 	case 12:
 		return s.wgCount == 0
 	}
@@ -313,6 +350,7 @@ type crun struct {
 	helpers  int
 	arrays   [][]int
 	sizes    []int
+	wgSpawn  []int
 	resultsH [][]string
 }
 
@@ -404,6 +442,7 @@ func runProgram(prog cprog, choose func(step int, enabled []int) int) crun {
 		}
 	}
 	s.mu.Lock()
+	out.wgSpawn = append([]int(nil), s.wgAtSpawn...)
 	s.adopting = false
 	// the helper parked before its queue was entered into qindex: resolve its queue now
 	for _, t := range s.threads {
@@ -520,7 +559,7 @@ func runProgram(prog cprog, choose func(step int, enabled []int) int) crun {
 	}
 	// the schedule
 	for step := 0; ; step++ {
-		if !s.quiescent(10 * time.Second) {
+		if !s.quiescent(4 * time.Second) {
 			out.hung = true
 			break
 		}
@@ -537,6 +576,10 @@ func runProgram(prog cprog, choose func(step int, enabled []int) int) crun {
 			if s.enabledOf(t) {
 				en = append(en, t.tid)
 			}
+		}
+		if s.stuckMutex {
+			out.hung = true
+			break
 		}
 		if len(en) == 0 {
 			break
@@ -567,6 +610,14 @@ func runProgram(prog cprog, choose func(step int, enabled []int) int) crun {
 		}
 	}
 	s.mu.Unlock()
+	if !out.hung {
+		for _, q := range s.queues {
+			if q != nil && sizeOf(q) < 0 {
+				out.hung = true
+				break
+			}
+		}
+	}
 	if !out.hung {
 		for _, q := range s.queues {
 			if q == nil { // a constructor that never returned
@@ -631,11 +682,16 @@ func zList(xs []int) string {
 func checkRun(prog cprog, run crun) []string {
 	var bad []string
 	if run.hung {
-		return []string{"a granted step did not reach its next scheduling point within 10s (blocked inside the runtime)"}
+		return []string{"a granted step did not reach its next scheduling point within 4s, or a queue's mutex was left locked (a call panicked inside its critical section): goroutines are blocked inside the runtime although the queue's state permits them to proceed"}
 	}
 	for _, t := range prog.threads {
 		if t.kind == "ctor" && !run.final {
 			return []string{fmt.Sprintf("the Queue constructor (form %s) with %d initial values did not return: it is blocked on its own capacity", t.form, t.n)}
+		}
+	}
+	for i, n := range run.wgSpawn {
+		if n != i+1 {
+			bad = append(bad, fmt.Sprintf("when helper goroutine %d was started the caller's wait group counted %d instead of %d: group.Add must precede the go statement, otherwise group.Wait can return before the helper has run (outputs never filled nor closed)", i+1, n, i+1))
 		}
 	}
 	hasRemoveAll := false
@@ -1049,7 +1105,12 @@ func genConc(prop string, seed uint64, tier, outDir string, count int) error {
 	}
 	exhaustivePrograms := 0
 	exhaustiveComplete := 0
+	hungCases := 0
 	for i := 0; i < count; i++ {
+		if hungCases >= 4 {
+			meta.Extra["stopped_early"] = fmt.Sprintf("after %d cases: 4 executions blocked inside the runtime, further cases would only repeat the time-outs", i)
+			break
+		}
 		var prog cprog
 		shape, length, fan := -1, 0, 0
 		switch prop {
@@ -1077,7 +1138,11 @@ func genConc(prop string, seed uint64, tier, outDir string, count int) error {
 			fan = 2 + r.intn(2)
 			prog = genPipes(r, shape, length, fan, 1+r.intn(2))
 		}
-		add(runCase(prog, r.fork(), shape, length, fan))
+		c := runCase(prog, r.fork(), shape, length, fan)
+		if c.run.hung {
+			hungCases++
+		}
+		add(c)
 	}
 	if tier == "thorough" {
 		// all schedules of small programs of the property's quantifier, on the real code
